@@ -57,6 +57,9 @@ type Config struct {
 	Store     func() corekv.TxnStore // nil = vkv
 	// TimeTravel makes the oracle query the document at every merged commit (C03, branching histories).
 	TimeTravel bool
+	// IndexProbe names a register field that carries a secondary index: in every state an index-backed
+	// read for every value ever written (and null) must agree with the listing.
+	IndexProbe string
 }
 
 type IndexSpec struct {
